@@ -174,8 +174,26 @@ class Result:
         self.notes = []
 
 
-def scratch(prefix='vf'):
-    d = tempfile.mkdtemp(prefix=prefix + '-', dir=os.environ.get('VERIF_TMP', '/tmp'))
+_scratch_locks = []
+
+
+def scratch(prefix='vf', deterministic=None):
+    """a scratch directory; with deterministic=<key> the SAME path on every run (generated projects embed
+    their absolute path in entity identities, so campaigns are only reproducible with a fixed path);
+    identical invocations are serialised by a lock file"""
+    base = os.environ.get('VERIF_TMP', '/tmp')
+    if deterministic is None:
+        return tempfile.mkdtemp(prefix=prefix + '-', dir=base)
+    import fcntl
+    root = os.path.join(base, 'verif-work')
+    os.makedirs(root, exist_ok=True)
+    d = os.path.join(root, '%s-%s' % (prefix, deterministic))
+    lk = open(d + '.lock', 'w')
+    fcntl.flock(lk, fcntl.LOCK_EX)
+    _scratch_locks.append(lk)
+    subprocess.run(['chmod', '-R', 'u+rwx', d], capture_output=True)
+    shutil.rmtree(d, ignore_errors=True)
+    os.makedirs(d)
     return d
 
 
@@ -201,7 +219,7 @@ def finish(pid, tier, seed, t0, res, obl, level='proof', checker_cmd=None, trust
         lines.append('VIOLATION property=%s replay=%s' % (pid, path))
         status = 1
     if broken and not res.violations:
-        path = write_replay(pid, {'property': pid, 'no_longer_checks': broken,
+        path = write_replay(pid, {'property': pid, 'no_longer_checks': broken, 'notes': res.notes,
                                   'note': 'proof obligation / model-code tie broken; search found no failing input',
                                   'coq_log_tail': coq_log_tail()})
         lines.append('VIOLATION property=%s replay=%s no-failing-input-found' % (pid, path))
